@@ -51,6 +51,11 @@ def molecules(ctx, kind, n):
     out = list(G.FIXED_GAS if kind == 'gas' else G.FIXED_SURFACE + G.FIXED_GAS[:12])
     if ctx.thorough() and kind == 'gas':
         out.append('C' * 100)       # 2 400 candidates of the sp3-carbon pattern (302 atoms): a candidate cap below that shows
+    # covering set (every reachable centre pattern, correction descriptor and remap row of the shipped schemes): all of it in
+    # the thorough tier, a third chosen by the seed in the quick tier
+    from .lib_molcover import COVER_GAS, COVER_SURFACE
+    cover = COVER_GAS if kind == 'gas' else COVER_SURFACE
+    out.extend(cover if ctx.thorough() else cover[ctx.seed % 3::3])
     for _ in range(n):
         out.append(G.gen_smiles(rng, kind, rng.choice([3, 5, 8, 12] + ([18, 24] if ctx.thorough() else []))))
     for _ in range(max(2, n // 12)):
